@@ -135,6 +135,7 @@ type vbWorld struct {
 	// serving-side results, per identifier index
 	Honest   [][]byte // block bytes the real Blockstore produced (nil: refused)
 	ServeErr []string
+	ServedCID []cid.Cid
 	byKind   map[string][]int
 }
 
@@ -187,6 +188,7 @@ func vbNewWorld(l sq.Layout, variant int, height uint64, withRanges bool) (*vbWo
 	}
 	w.Honest = make([][]byte, len(w.IDs))
 	w.ServeErr = make([]string, len(w.IDs))
+	w.ServedCID = make([]cid.Cid, len(w.IDs))
 	for i, id := range w.IDs {
 		w.byKind[id.Kind] = append(w.byKind[id.Kind], i)
 		blk, err := w.serve(id)
@@ -195,6 +197,7 @@ func vbNewWorld(l sq.Layout, variant int, height uint64, withRanges bool) (*vbWo
 			continue
 		}
 		w.Honest[i] = blk.RawData()
+		w.ServedCID[i] = blk.Cid()
 	}
 	return w, nil
 }
@@ -284,7 +287,8 @@ func (w *vbWorld) refState(id vbID, b Block) (st string) {
 	S := w.S
 	switch x := b.(type) {
 	case *SampleBlock:
-		if !bytes.Equal(x.Container.Share.ToBytes(), S.Cell(id.Row, id.Col).ToBytes()) {
+		ref := S.Cell(id.Row, id.Col)
+		if !bytes.Equal(x.Container.Share.ToBytes(), ref.ToBytes()) {
 			return "wrong: sample share differs from the committed share at the coordinate"
 		}
 	case *RowBlock:
@@ -301,8 +305,9 @@ func (w *vbWorld) refState(id vbID, b Block) (st string) {
 		if id.Row < S.W {
 			ns := vbProbe(id.NS)
 			for c := 0; c < S.W; c++ {
-				if bytes.Equal(S.Cell(id.Row, c).Namespace().Bytes(), ns.Bytes()) {
-					want = append(want, S.Cell(id.Row, c))
+				cell := S.Cell(id.Row, c)
+				if bytes.Equal(cell.Namespace().Bytes(), ns.Bytes()) {
+					want = append(want, cell)
 				}
 			}
 		}
